@@ -10,6 +10,7 @@ import (
 	"fmt"
 	"strings"
 
+	mcisco "verif/internal/model/cisco"
 	mnsx "verif/internal/model/nsx"
 	mpan "verif/internal/model/panos"
 	"verif/internal/run"
@@ -120,6 +121,119 @@ func runConvLivePANOS(env *run.Env, g *genCase) *convOutcome {
 	}
 	if c := panosEquiv(dev, tgt); c != nil {
 		o.Conv = &clause{"not-converged:" + c.Name, c.What}
+	}
+	return o
+}
+
+// runConvLiveCisco: complete live approve of an ASA / IOS pair through the
+// CLI simulator whose back end is the device model (login, session
+// set-up, configuration listing in device format, configuration mode,
+// IOS reload guard, save). The commands the simulator received in
+// configuration mode are then replayed by the same monitors as a printed
+// script (convCisco), so that verdicts and class keys are those of file
+// mode; what only a live run can show carries "live:" in its name:
+// the tool's exit status, and a second *live* compare of the state the
+// session left (configuration listing parsed from the session).
+func runConvLiveCisco(env *run.Env, g *genCase) *convOutcome {
+	dev := g.model.(*mcisco.Device)
+	lc := &liveCase{Type: g.Type, DevName: "router", Files: g.Files, FrontEnd: "drc"}
+	if g.Seed%2 == 1 {
+		lc.FrontEnd = "do-approve"
+	}
+	spec := func(config string) *sim.Spec {
+		sp := &sim.Spec{Type: g.Type, Config: config, UseModel: true, XE: dev.XE, NeedEnable: g.Seed%3 != 0}
+		if g.Type == "asa" {
+			sp.Notices = true
+			sp.EnablePass = sp.NeedEnable
+			sp.PagerOn, sp.Width80 = g.Seed%5 == 0, g.Seed%7 == 0
+		} else {
+			sp.Modified = g.Seed%4 != 0
+			if g.Seed%6 == 0 {
+				sp.WriteMem = "nvram-confirm"
+			}
+		}
+		return sp
+	}
+	lc.Cli = spec(g.Device)
+	lr := lc.run(env)
+	defer lr.cleanup()
+	o := &convOutcome{}
+	if isCrash(lr.Res) {
+		o.Crashed = true
+		o.Conv = &clause{"crash:" + topRepoFrame(lr.Res.Stderr) + ":" + panicClass(lr.Res.Stderr), "tool died in a live approve of a valid pair: " + firstLines(lr.Res.Stderr, 3)}
+		return o
+	}
+	var entries []string
+	simRejected, saved := "", false
+	for _, e := range lr.Events {
+		if e.Class == "save" && strings.HasPrefix(e.Verdict, "accepted") {
+			saved = true
+		}
+		if e.Mode != "config" || (e.Class != "config-change" && e.Class != "mode") || e.Raw == "end" || e.Raw == "" {
+			continue
+		}
+		if strings.HasPrefix(e.Verdict, "rejected") && simRejected == "" {
+			simRejected = e.Raw
+		}
+		if e.Verdict == "unmodelled" {
+			o.Inconclusive = "unmodelled-command " + cmdHead(e.Raw)
+			return o
+		}
+		o.LiveCommands++
+		if e.Joined && len(entries) > 0 {
+			o.LiveJoined++
+			entries[len(entries)-1] += "\\N " + e.Raw
+		} else {
+			entries = append(entries, e.Raw)
+		}
+	}
+	o.Script = strings.Join(entries, "\n")
+	if o.Script != "" {
+		o.Script += "\n"
+	}
+	o.LiveNotices = strings.Count(lr.Res.Stderr+lr.Files["logs/router.change"]+lr.Files["base/policies/p1/log/router.drc"], "WARNING: ")
+	convCisco(env, g, o, len(entries) > 0, false)
+	if o.Inconclusive != "" {
+		return o
+	}
+	if (simRejected != "") != (o.Exec != nil) {
+		// Simulator and replay run the same model on the same commands.
+		o.Inconclusive = "simulator-and-replay-disagree"
+		return o
+	}
+	if o.Exec != nil || o.Conv != nil {
+		return o
+	}
+	if lr.Res.Exit != 0 {
+		o.Conv = &clause{"live:rejected:" + errorShape(lr.Res.Stderr), fmt.Sprintf("live approve of a valid pair failed with exit %d although the device accepted every command: %s", lr.Res.Exit, firstLines(lr.Res.Stderr, 3))}
+		return o
+	}
+	if len(entries) > 0 && !saved {
+		o.Anomalies = append(o.Anomalies, "anomaly:live-changes-not-saved")
+	}
+	// Second compare as a live session on the state the approve left.
+	final := dev
+	if o.Final != nil {
+		final = o.Final.(*mcisco.Device)
+	}
+	lc2 := &liveCase{Type: g.Type, DevName: "router", Files: g.Files, FrontEnd: lc.FrontEnd, Compare: true}
+	lc2.Cli = spec(final.Dump())
+	lr2 := lc2.run(env)
+	defer lr2.cleanup()
+	o.LiveCompares++
+	if isCrash(lr2.Res) {
+		o.Crashed = true
+		o.Conv = &clause{"crash:" + topRepoFrame(lr2.Res.Stderr) + ":" + panicClass(lr2.Res.Stderr), "tool died in the live compare after a live approve: " + firstLines(lr2.Res.Stderr, 3)}
+		return o
+	}
+	clean := lr2.Res.Exit == 0 && len(lr2.changeEvents()) == 0
+	if lc.FrontEnd == "drc" {
+		clean = clean && strings.Contains(lr2.Res.Stderr, "comp: device unchanged")
+	} else {
+		clean = clean && strings.Contains(lr2.Status, "UPTODATE") && !strings.Contains(lr2.Res.Stdout, "comp: ***")
+	}
+	if !clean {
+		o.Conv = &clause{"live:second-compare-not-clean", fmt.Sprintf("live compare after the live approve: exit %d, %d change events, %s", lr2.Res.Exit, len(lr2.changeEvents()), firstLines(lr2.Res.Stderr, 4))}
 	}
 	return o
 }
